@@ -1,0 +1,64 @@
+//go:build verif
+
+package strs
+
+// Contracts for the identifier conversions (property C42).
+//
+// A protobuf identifier is a letter or underscore followed by letters, digits and underscores
+// (the language specification: ident = letter { letter | decimalDigit | "_" }, where protoc also
+// admits a leading underscore). An exported Go identifier starts with an upper-case letter and
+// continues with letters, digits and underscores.
+
+func specIdentChar(c byte) bool {
+	return 'a' <= c && c <= 'z' || 'A' <= c && c <= 'Z' || '0' <= c && c <= '9' || c == '_'
+}
+
+// specProtoIdent: s is a single protobuf identifier (no dots).
+func specProtoIdent(s string) bool {
+	return len(s) > 0 && (specIdentChar(s[0]) && !('0' <= s[0] && s[0] <= '9')) &&
+		forallStr(s, 0, len(s), func(k int, e byte) bool { return specIdentChar(e) })
+}
+
+// GoCamelCase maps every protobuf identifier to an exported Go identifier: non-empty, first
+// character an upper-case letter, all characters letters, digits or underscores.
+//
+// @ props C42
+// @ mode int
+// @ inline isASCIILower isASCIIUpper isASCIIDigit
+// @ loop 1 invariant 0 <= i && i <= len(s) && (len(b) == 0) == (i == 0) && (freshSlice(b) || b == nil)
+// @ loop 1 invariant imp(len(b) > 0, 'A' <= b[0] && b[0] <= 'Z')
+// @ loop 1 invariant forallIn(b, 0, len(b), func(k int, e byte) bool { return specIdentChar(e) })
+// @ loop 2 invariant 0 <= i && i < len(s) && len(b) > 0 && freshSlice(b) && 'A' <= b[0] && b[0] <= 'Z'
+// @ loop 2 invariant forallIn(b, 0, len(b), func(k int, e byte) bool { return specIdentChar(e) })
+func contract_GoCamelCase(s string) (r string) {
+	requires(specProtoIdent(s))
+	ensures(len(r) > 0 && 'A' <= r[0] && r[0] <= 'Z')
+	ensures(forallStr(r, 0, len(r), func(k int, e byte) bool { return specIdentChar(e) }))
+	return
+}
+
+// JSONCamelCase removes every underscore (and nothing else is dropped).
+//
+// @ props C42
+// @ mode int
+// @ inline isASCIILower isASCIIUpper isASCIIDigit
+// @ loop 1 invariant 0 <= i && i <= len(s) && len(b) <= i && (freshSlice(b) || b == nil)
+// @ loop 1 invariant forallIn(b, 0, len(b), func(k int, e byte) bool { return e != '_' })
+func contract_JSONCamelCase(s string) (r string) {
+	ensures(len(r) <= len(s))
+	ensures(forallStr(r, 0, len(r), func(k int, e byte) bool { return e != '_' }))
+	return
+}
+
+// JSONSnakeCase leaves no upper-case ASCII letter.
+//
+// @ props C42
+// @ mode int
+// @ inline isASCIILower isASCIIUpper isASCIIDigit
+// @ loop 1 invariant 0 <= i && i <= len(s) && i <= len(b) && len(b) <= 2*i && (freshSlice(b) || b == nil)
+// @ loop 1 invariant forallIn(b, 0, len(b), func(k int, e byte) bool { return !('A' <= e && e <= 'Z') })
+func contract_JSONSnakeCase(s string) (r string) {
+	ensures(len(s) <= len(r) && len(r) <= 2*len(s))
+	ensures(forallStr(r, 0, len(r), func(k int, e byte) bool { return !('A' <= e && e <= 'Z') }))
+	return
+}
